@@ -52,7 +52,7 @@ func init() {
 		Batches:     tierN(192, 2048),
 		Helpers:     []string{"holder"},
 		Chunk:       8,
-		Floors:      []string{"tick-released>=3", "lock-fully-burnt", "lock-partially-burnt", "zero-amount-lock", "tick-below-until", "zero-lock-released", "nested-locks-released-by-one-tick", "lock-with-a-negative-until", "lock-onto-an-account-that-holds-funds"},
+		Floors:      []string{"tick-released>=3", "lock-fully-burnt", "lock-partially-burnt", "zero-amount-lock", "tick-below-until", "zero-lock-released", "nested-locks-released-by-one-tick", "lock-with-a-negative-until", "lock-onto-an-account-that-holds-funds", "more-than-128-locks-fall-due-at-one-tick"},
 		Run:         func(b *runner.Batch) { runBalance(b, "C09") },
 	})
 }
@@ -156,6 +156,22 @@ func runBalance(b *runner.Batch, mode string) {
 		if b.Thorough() {
 			nops = 200
 		}
+	}
+	// many locks falling due at one tick: "all locks expiring at one tick are released by that tick", whatever their
+	// number (seeded change C09-9: the sweep working in batches of 128 and stopping after the first)
+	if mode == "C09" && b.Index%16 == 5 {
+		nl := 130
+		if b.Thorough() && b.Index%32 == 5 {
+			nl = 260
+		}
+		u := e.users[b.Index%3].ScriptHash()
+		e.mintTo(mode, u, int64(10*nl))
+		due := e.epoch + 1
+		for i := 0; i < nl && b.NViolations() == 0; i++ {
+			e.alphaOp(mode, "lock", u, e.freshLock(), int64(1+i%7), due)
+		}
+		e.alphaOp(mode, "tick", due)
+		b.Hit("more-than-128-locks-fall-due-at-one-tick")
 	}
 	reelectAt := -1
 	if b.Index%4 == 2 {
